@@ -150,6 +150,12 @@ func c10Request() channelstore.ReadCommittedRequest {
 
 // c10CheckRead asserts the C10 read property on one result.
 func c10CheckRead(st *ZZC10Store, retention uint64, minISR int, res channelstore.ReadCommittedResult) {
+	c10CheckReadK(st, retention, minISR, res, false)
+}
+
+// c10CheckReadK: zeroFrom marks a forward request with FromSeq == 0 — the input of finding C10-F1
+// (with nothing committed the clamp MaxSeq = committed = 0 reads as "no cap" in the store).
+func c10CheckReadK(st *ZZC10Store, retention uint64, minISR int, res channelstore.ReadCommittedResult, zeroFrom bool) {
 	committed := st.HW
 	if minISR <= 1 {
 		// documented system semantics: with a commit quorum of one the durable log end is committed
@@ -160,7 +166,7 @@ func c10CheckRead(st *ZZC10Store, retention uint64, minISR int, res channelstore
 		floor = st.Retention.LocalRetentionThroughSeq
 	}
 	for _, m := range res.Messages {
-		zzsym.Assert(m.MessageSeq <= committed, "read returned a message above the committed watermark")
+		zzsym.AssertKnown(m.MessageSeq <= committed, "read returned a message above the committed watermark", "C10-F1", zeroFrom && committed == 0)
 		zzsym.Assert(m.MessageSeq > floor, "read returned a message at or below the retention boundary")
 	}
 	zzsym.Observe("read", uint64(len(res.Messages)), res.NextSeq, committed, floor)
@@ -177,16 +183,16 @@ func Harness_C10_ReadLocalCommitted() {
 	minISR := zzsym.Int("minisr")
 	// sequences never reach 2^64-1 (nextSeq saturates there)
 	zzsym.Assume(retention < ^uint64(0) && st.Retention.LocalRetentionThroughSeq < ^uint64(0))
-	// every caller of the read path starts forward reads at a sequence >= 1 (readCommittedRequest,
-	// LoadCommandMessages); see the report for what FromSeq == 0 does when nothing is committed
-	zzsym.Assume(req.Reverse || req.FromSeq >= 1)
+	// in-tree callers start forward reads at a sequence >= 1 (readCommittedRequest, LoadCommandMessages);
+	// FromSeq == 0 is reachable through the exported ReadCommittedBatch / a forwarded-read RPC: finding C10-F1
+	zeroFrom := !req.Reverse && req.FromSeq == 0
 
 	res, err := svc.readLocalCommitted(ZZC10Ctx{}, CommittedRead{ChannelID: ch.ChannelID{ID: "c", Type: 2}, Request: req}, retention, minISR)
 
 	if err != nil {
 		return
 	}
-	c10CheckRead(st, retention, minISR, res)
+	c10CheckReadK(st, retention, minISR, res, zeroFrom)
 	if len(res.Messages) > 0 {
 		if req.Reverse {
 			zzsym.Reach("reverse read returned rows")
@@ -210,7 +216,7 @@ func Harness_C10_ReadCommittedBatch() {
 	svc := &Service{localNode: 1, store: ZZC10Factory{Store: st}, metaSource: ZZC10Meta{Meta: meta}}
 	req := c10Request()
 	zzsym.Assume(meta.RetentionThroughSeq < ^uint64(0) && st.Retention.LocalRetentionThroughSeq < ^uint64(0))
-	zzsym.Assume(req.Reverse || req.FromSeq >= 1)
+	zeroFrom := !req.Reverse && req.FromSeq == 0
 
 	results, err := svc.ReadCommittedBatch(ZZC10Ctx{}, []CommittedRead{{ChannelID: id, Request: req}})
 
@@ -224,7 +230,7 @@ func Harness_C10_ReadCommittedBatch() {
 		return
 	}
 	zzsym.Reach("batch item served locally")
-	c10CheckRead(st, meta.RetentionThroughSeq, meta.MinISR, results[0].Read)
+	c10CheckReadK(st, meta.RetentionThroughSeq, meta.MinISR, results[0].Read, zeroFrom)
 }
 
 // Harness_C10_ForwardedRead: the leader-side handler of a forwarded read; the origin's floor and
@@ -245,7 +251,7 @@ func Harness_C10_ForwardedRead() {
 		item.ExpectedLeaderEpoch = zzsym.U64("item.leaderepoch")
 	}
 	zzsym.Assume(meta.RetentionThroughSeq < ^uint64(0) && item.RetentionThroughSeq < ^uint64(0) && st.Retention.LocalRetentionThroughSeq < ^uint64(0))
-	zzsym.Assume(item.Request.Reverse || item.Request.FromSeq >= 1)
+	zeroFrom := !item.Request.Reverse && item.Request.FromSeq == 0
 
 	resp, err := svc.handleForwardCommittedReads(ZZC10Ctx{}, CommittedReadsRequest{Items: []CommittedReadRequest{item}})
 
@@ -262,7 +268,7 @@ func Harness_C10_ForwardedRead() {
 	if item.RetentionThroughSeq > floor {
 		floor = item.RetentionThroughSeq
 	}
-	c10CheckRead(st, floor, meta.MinISR, resp.Items[0].Read)
+	c10CheckReadK(st, floor, meta.MinISR, resp.Items[0].Read, zeroFrom)
 }
 
 // Harness_C10_ConversationHead: the conversation-head read (readLocalConversationHeads ->
